@@ -236,6 +236,7 @@ func runC11(c *Ctx) {
 	c11World(c)
 	c11Find(c)
 	c11Attempts(c)
+	c11Resets(c)
 }
 
 // ---------- 1. keys ----------
@@ -1568,6 +1569,67 @@ func c11Find(c *Ctx) {
 				}
 			}
 		}
+		// routing as a whole: real refreshState vs the model's `route`, on the true journal names and on
+		// near misses (cut / extended paths, padded or signed fork numbers, foreign forks, unknown chunks):
+		// what the model routes nowhere must be recorded nowhere
+		isStage := map[string]bool{}
+		for _, fq := range stages {
+			isStage[fq] = true
+		}
+		var nodeEnc []string
+		for _, fq := range fqids {
+			fs := []string{}
+			if isStage[fq] {
+				fs = []string{"0"}
+			}
+			nodeEnc = append(nodeEnc, hx(fq)+":"+hxList(fs))
+		}
+		var jnames []string
+		for _, fq := range stages {
+			good := path.Base(w.RunFile(fq, 0, "chunk", 0)) + ".complete"
+			jnames = append(jnames, good, good[1:], good[2:], "X"+good, "."+good, top+"."+good, top+good,
+				strings.Replace(good, ".fork0", ".fork00", 1), strings.Replace(good, ".fork0", ".fork+0", 1),
+				strings.Replace(good, ".fork0", ".fork1", 1), strings.Replace(good, ".fork0", ".fork_0", 1),
+				strings.Replace(good, ".chnk0", ".chnk1", 1), strings.Replace(good, ".chnk0", "", 1),
+				strings.Replace(good, ".chnk0", ".chnk0.u0123456789", 1), strings.Replace(good, ".fork0", ".fork0.fork0", 1))
+		}
+		var rreqs [][]string
+		for _, jn := range jnames {
+			rreqs = append(rreqs, []string{"C11.route", hx(top), strings.Join(nodeEnc, ";"), hx(jn)})
+		}
+		for ji, rep := range c.Drv.AskBatch(rreqs) {
+			jn := jnames[ji]
+			if err := os.WriteFile(path.Join(w.JournalPath(), jn), []byte("x"), 0o644); err != nil {
+				continue
+			}
+			w.ClearSeen()
+			if err := w.Refresh(); err != nil {
+				r.violate(Violation{Kind: "property", Key: "C11:refresh-panic", What: "Node.refreshState panicked: " + err.Error(), Input: jn})
+				continue
+			}
+			seen := w.Seen()
+			var expect []core.VerifSeen
+			if f := strings.Fields(rep); len(f) == 6 && f[0] == "some" {
+				fk, _ := strconv.Atoi(f[2])
+				if f[4] == "-" { // a uniquified entry is ignored by these (never uniquified) jobs
+					if f[3] == "-" {
+						expect = []core.VerifSeen{{Fqid: unhx(f[1]), Fork: fk, Job: "fork", Chunk: -1, Name: unhx(f[5])}}
+					} else if ci, _ := strconv.Atoi(unhx(f[3])); ci == 0 { // one chunk per fork here
+						expect = []core.VerifSeen{{Fqid: unhx(f[1]), Fork: fk, Job: "chunk", Chunk: 0, Name: unhx(f[5])}}
+					}
+				}
+				r.hist("route_probes_routed")
+			} else {
+				r.hist("route_probes_nowhere")
+			}
+			r.count("route:"+top+":"+jn, true)
+			if fmt.Sprint(seen) != fmt.Sprint(expect) {
+				r.violate(Violation{Kind: "property", Key: "C11:route-model-mismatch",
+					What:  "Node.refreshState records a journal file differently from the model's route (a name no job produces must be recorded nowhere; a job's name for exactly that job)",
+					Input: map[string]interface{}{"pipestance": top, "nodes": fqids, "journal_file": jn},
+					Impl:  seen, Model: rep, Expect: expect, Broken: "route_roundtrip / route_exact / route_nowhere"})
+			}
+		}
 		os.RemoveAll(dir)
 	}
 }
@@ -1619,7 +1681,8 @@ func c11Attempts(c *Ctx) {
 		}
 		return true
 	}
-	// (a) same-second reset (recorded, not required to differ: makeUniquifier is pid + unix seconds)
+	// (a) the retry happens within the same clock second in which the failed attempt was started
+	//     (makeUniquifier alone is pid + unix seconds): the new attempt must still get a new identity
 	{
 		j := c11Job{fqSplit, 1, "chunk", 0}
 		for time.Now().Nanosecond() > 600e6 { // leave room within the current second
@@ -1631,12 +1694,25 @@ func c11Attempts(c *Ctx) {
 			if err := w.ResetFork(j.fqid, j.fork); err == nil {
 				a2, _ := w.Attempt(j.fqid, j.fork, j.job, j.chunk)
 				if time.Now().Unix() == sec {
-					if a2.Uniquifier == a1.Uniquifier {
-						r.hist("attempt_reset_same_second_same_uniquifier")
-						r.note("finding candidate (not counted as a violation): a job reset within the same clock second as its failed attempt started gets the SAME uniquifier %s (makeUniquifier = pid + unix seconds): directory %s and journal prefix %s are reused, so a straggler of the failed attempt is indistinguishable from the retry", a1.Uniquifier, a2.Path, path.Base(a2.RunFile))
-					} else {
-						r.hist("attempt_reset_same_second_new_uniquifier")
+					r.hist("attempt_resets_same_second")
+					r.count(fmt.Sprintf("attempt-same-second:%v", j), true)
+					if a2.Uniquifier == "" || a2.Uniquifier == a1.Uniquifier || a2.Path == a1.Path || a2.RunFile == a1.RunFile {
+						r.violate(Violation{Kind: "property", Key: "C11:attempt-identity-reused:same-second",
+							What:  "a job reset within the same clock second in which its failed attempt was started reuses that attempt's uniquifier (pid + unix seconds): same directory, same journal name; a straggler of the failed attempt is indistinguishable from the retry",
+							Input: map[string]interface{}{"job": j.String(), "history": "StartAttempt; errors notification; refresh; Fork.resetPartial, all within one second"},
+							Impl:  map[string]interface{}{"attempt1": a1, "attempt2": a2}, Expect: "a different uniquifier, directory and journal prefix", Broken: "attempt_exact (freshness of the uniquifier sequence)"})
 					}
+					w.ClearSeen()
+					if err := c11Notify(a1.RunFile, "main", "complete"); err == nil {
+						w.Refresh()
+						if seen := w.Seen(); len(seen) != 0 {
+							r.violate(Violation{Kind: "property", Key: "C11:stale-attempt-accepted:same-second",
+								What:  "a completion written by the failed first attempt after a same-second reset is recorded as a completion of the retry",
+								Input: map[string]interface{}{"job": j.String(), "attempt1": a1, "attempt2": a2}, Impl: seen, Expect: "ignored", Broken: "attempt_exact"})
+						}
+					}
+				} else {
+					r.hist("attempt_same_second_missed")
 				}
 			}
 		}
@@ -1707,4 +1783,72 @@ func c11Attempts(c *Ctx) {
 			}
 		}
 	}
+}
+
+// ---------- 8. resetting one job / node must not eat the pending notifications of another ----------
+
+func c11Resets(c *Ctx) {
+	r := c.Res
+	dir := path.Join(c.Scratch, "resets")
+	os.MkdirAll(path.Join(dir, "journal"), 0o755)
+	defer os.RemoveAll(dir)
+	// two stages whose relative ids are a prefix of one another without a component boundary
+	w, err := core.VerifNewWorld(fmt.Sprintf(c11MroTemplate, "ST", "ST2", "PIPE"), "ps", dir)
+	if err != nil {
+		r.note("resets: cannot build world: %v", err)
+		return
+	}
+	fqA, fqB := "ID.ps.TOP.PIPE.ST", "ID.ps.TOP.PIPE.ST2"
+	for _, fq := range []string{fqA, fqB} {
+		for i := 0; i < 12; i++ {
+			names, err := w.AddFork(fq, []c11Part{{Kind: "arr", Index: i, Len: 12, Static: true}}, 2)
+			if err != nil {
+				r.note("resets: AddFork: %v", err)
+				return
+			}
+			os.MkdirAll(names.Path, 0o755)
+		}
+	}
+	check := func(key, what string, hist string, expect []core.VerifSeen) {
+		w.ClearSeen()
+		if err := w.Refresh(); err != nil {
+			r.note("resets: refresh: %v", err)
+			return
+		}
+		seen := w.Seen()
+		r.count("reset:"+key, true)
+		r.hist("reset_scenarios")
+		if fmt.Sprint(seen) != fmt.Sprint(expect) {
+			r.violate(Violation{Kind: "property", Key: key, What: what,
+				Input: map[string]interface{}{"nodes": []string{fqA, fqB}, "history": hist},
+				Impl:  seen, Expect: expect, Broken: "route_roundtrip (a notification of another job must survive the reset and be routed to its owner)"})
+		}
+	}
+	// (a) chunk-granular reset of fork1's failed split job (not uniquified, as with MRO_UNIQUIFIED_DIRECTORIES=disable
+	//     or before the first uniquify) while fork10 / fork11 of the same stage have notifications pending
+	if err := c11Notify(w.RunFile(fqB, 1, "split", -1), "split", "errors"); err == nil {
+		w.Refresh()
+		if st := w.JobState(fqB, 1, "split", -1); st != "failed" {
+			r.note("resets: split job is %q after errors", st)
+		}
+		c11Notify(w.RunFile(fqB, 10, "split", -1), "split", "complete")
+		c11Notify(w.RunFile(fqB, 11, "join", -1), "join", "complete")
+		if err := w.ResetFork(fqB, 1); err != nil {
+			r.note("resets: ResetFork: %v", err)
+		}
+		check("C11:reset-deletes-foreign-journal:partial",
+			"resetting a failed job deleted the pending journal entries of OTHER forks whose name merely starts with the reset fork's name (fork1 / fork10, fork11): their completions are lost",
+			"fork1 split fails; fork10 split_complete and fork11 join_complete are written; Fork.resetPartial(fork1); refresh",
+			[]core.VerifSeen{{Fqid: fqB, Fork: 10, Job: "split", Chunk: -1, Name: "complete"}, {Fqid: fqB, Fork: 11, Job: "join", Chunk: -1, Name: "complete"}})
+	}
+	// (b) full-stage reset (MRO_FULLSTAGERESET) of node ST while node ST2 has a notification pending
+	c11Notify(w.RunFile(fqB, 0, "split", -1), "split", "complete")
+	if err := w.ResetNode(fqA, true); err != nil {
+		r.note("resets: Node.reset(full): %v", err)
+		return
+	}
+	check("C11:reset-deletes-foreign-journal:full-stage",
+		"a full-stage reset of one node deleted the pending journal entries of ANOTHER node whose id merely starts with the reset node's id (TOP.PIPE.ST / TOP.PIPE.ST2)",
+		"ST2 fork0 split_complete is written; Node.reset(ST) with FullStageReset; refresh",
+		[]core.VerifSeen{{Fqid: fqB, Fork: 0, Job: "split", Chunk: -1, Name: "complete"}})
 }
